@@ -28,6 +28,7 @@ import (
 	"path/filepath"
 	"sort"
 	"strings"
+	"runtime"
 	"sync"
 	"sync/atomic"
 	"syscall"
@@ -1595,12 +1596,16 @@ type blkFaultyBuf struct {
 	in     gbytes.Buffer
 	armed  atomic.Int32
 	failed atomic.Int64
+	slow   atomic.Bool
 }
 
 func (f *blkFaultyBuf) Buffer(offs int64, size int) ([]byte, error) {
 	if f.armed.CompareAndSwap(1, 0) {
 		f.failed.Add(1)
 		return nil, fmt.Errorf("harness: transient storage fault")
+	}
+	if f.slow.Load() {
+		runtime.Gosched()
 	}
 	return f.in.Buffer(offs, size)
 }
@@ -1696,6 +1701,54 @@ func blkStressFaulty(rnd *rand.Rand) []blkNote {
 		if av := b.Available(); av != cnt-len(seen) {
 			notes = append(notes, blkNote{Sig: "blocks: concurrent, faulty storage: Available at quiescence differs from Count minus held blocks",
 				Got: map[string]any{"available": av, "faults": fb.failed.Load()}, Want: cnt - len(seen), Cfg: cfg})
+			continue
+		}
+		// directed rounds: one call fails on a storage fault while nobody else is in the allocator, and the very next
+		// look at the counters runs while others arrange and free (whatever recovery the fault started meets them)
+		heldNow := len(seen)
+		bad := 0
+		var last any
+		for round := 0; round < 300 && bad == 0; round++ {
+			fb.armed.Store(1)
+			if idx, err := b.ArrangeBlock(); err == nil { // the fault was not on this call's way: give the block back
+				_ = b.FreeBlock(idx)
+			}
+			fb.armed.Store(0)
+			fb.slow.Store(true) // a slow store: every access yields, so calls really overlap
+			var done sync.WaitGroup
+			var running atomic.Int32
+			var stopW atomic.Bool
+			for w := 0; w < 4; w++ {
+				done.Add(1)
+				go func() {
+					defer done.Done()
+					defer func() { recover() }()
+					for n := 0; n < 200000 && !stopW.Load(); n++ {
+						if idx, err := b.ArrangeBlock(); err == nil {
+							_ = b.FreeBlock(idx)
+						}
+						running.Add(1)
+					}
+				}()
+			}
+			for t0 := time.Now(); running.Load() < 40 && time.Since(t0) < 2*time.Second; {
+				runtime.Gosched()
+			}
+			func() {
+				defer func() { recover() }()
+				_ = b.Available() // the first look at the counters after the fault, others at work
+			}()
+			stopW.Store(true)
+			done.Wait()
+			fb.slow.Store(false)
+			if av := b.Available(); av != cnt-heldNow {
+				bad++
+				last = map[string]any{"available": av, "round": round}
+			}
+		}
+		if bad > 0 {
+			notes = append(notes, blkNote{Sig: "blocks: concurrent, faulty storage: Available at quiescence differs from Count minus held blocks",
+				Got: last, Want: cnt - heldNow, Cfg: cfg + " directed"})
 		}
 	}
 	return notes
